@@ -174,10 +174,17 @@ def _material(rng, G, uni, table, weights=None, items=None):
             m['text'] = G.render_string(tree, table, rng)
     if rng.random() < 0.3:
         m['density'] = round(_log_uniform(rng, 0.1, 20), 4)      # the calculator must ignore it
+    if rng.random() < 0.3:
+        # named formulas print their name; a handful of names recur for different compositions
+        m['name'] = rng.choice(['solvent', 'sample', 'buffer', 'layer A'])
     return m
 
 
 def _wl_value(rng):
+    if rng.random() < 0.3:
+        # a few instrument wavelengths recur across calculators of one process (hostile to any
+        # state kept between calculators)
+        return rng.choice([1.798, 4.75, 5.0, 6.0, 0.5, 12.0])
     if rng.random() < 0.35:
         return _log_uniform(rng, 0.4, 6.0)      # inside the energy tables
     return _log_uniform(rng, 0.05, 50.0)
@@ -282,6 +289,8 @@ def _build_material(m):
     kw = {}
     if 'density' in m:
         kw['density'] = m['density']
+    if 'name' in m:
+        kw['name'] = m['name']
     if m['form'] == 'string':
         return pt.formula(m['text'], **kw)
     if m['form'] == 'dict':
